@@ -374,7 +374,8 @@ def obligations(tier):
          bounds='%d combinators (Any/All/Not/list/tuple, depth<=3) over leaf pairs '
                 'from %s' % (len(COMB), [l[0] for l in LEAVES[:red.hi + 1]])),
       Ob('nnx_split', nnx_split,
-         dict(n=I(2, 2) if quick else I(1, 3), c0=red, c1=red, c2=red,
+         dict(n=I(2, 2) if quick else I(1, 2), c0=I(0, NRED - 1), c1=I(0, NRED - 1),
+              c2=I(0, NRED - 1),
               nf=I(1, 2 if quick else 3), vt0=I(0, 2), vt1=I(0, 2), vt2=I(0, 2),
               tg0=I(0, 1), tg1=I(0, 1), tg2=I(0, 1), which=I(0, 3)),
          split=('which', 'nf', 'c0') if quick else ('which', 'nf', 'c0', 'c1'),
